@@ -95,7 +95,8 @@ EXPECT_PROBES = ("table_cell", "passed", "cache_hit", "cache_hit_script_changed"
                  "threads_run", "overlapping_requests_different_prompts", "overlapping_requests_same_prompt",
                  "cache_hit_on_concurrent_original", "post_probe_fresh", "preempted_while_holding_a_lock",
                  "protein_tagged_with_foreign_source", "observer_raised_reply_captured", "weak_key_twins_both_asked",
-                 "agent_rewrote_signal", "flood_past_capacity", "repeat_after_flood_fresh", "repeat_after_flood_cached")
+                 "agent_rewrote_signal", "flood_past_capacity", "repeat_after_flood_fresh", "repeat_after_flood_cached",
+                 "protein_object_reused", "breaker_answered")
 
 KNOWN = ("EXECUTE", "PERMIT", "BLOCK", "FAILURE", "DEFER")
 EXEC_PERMITS = ("EXECUTE", "PERMIT")
@@ -131,7 +132,8 @@ PREFIX_TWINS = [["deploy service", "deploy server", "deploy s"], ["list files", 
 # ----------------------------------------------------------------------------------------- plans
 # what an agent does to the (shared, mutable) Signal it was handed before it answers
 SIGNAL_EDITS = ["none", "none", "none", "upper", "redact", "append", "empty", "fields"]
-PLAIN = {"src_e": "none", "src_a": "none", "payload": "text", "conf": 0.9, "meta": False, "sig_e": "none", "sig_a": "none"}
+PLAIN = {"src_e": "none", "src_a": "none", "payload": "text", "conf": 0.9, "meta": False, "sig_e": "none", "sig_a": "none",
+         "share": "none"}
 SOURCES = ["none", "none", "none", "self", "empty", "other", "mallory", "sub-model-7"]
 PAYLOADS = ["text", "text", "text", "none", "dict", "int", "empty"]
 CONFS = [0.9, 0.9, 1.0, 0.0, -1.0, 7.5]
@@ -144,7 +146,8 @@ def _style(rng, plain=0.45):
     else:
         pr = {"src_e": rng.choice(SOURCES), "src_a": rng.choice(SOURCES), "payload": rng.choice(PAYLOADS),
               "conf": rng.choice(CONFS), "meta": rng.random() < 0.4,
-              "sig_e": rng.choice(SIGNAL_EDITS), "sig_a": rng.choice(SIGNAL_EDITS)}
+              "sig_e": rng.choice(SIGNAL_EDITS), "sig_a": rng.choice(SIGNAL_EDITS),
+              "share": rng.choice(["none", "none", "object", "object", "derived"])}
     cb = weighted(rng, [(6, "none"), (2.5, "record"), (0.8, "raise"), (0.4, "raise_block"), (0.4, "raise_permit")])
     return pr, cb
 
@@ -216,7 +219,7 @@ def gen(rng, tier, i):
                                    (2, "ASSESSOR_PRIORITY")]),
            "cache": rng.random() < 0.85,
            "ttl": rng.choice([1.0, 60.0, 300.0]),
-           "breaker": "off" if rng.random() < 0.7 else "huge",
+           "breaker": weighted(rng, [(6.5, "off"), (2.5, "huge"), (1.0, "small")]), "thr": rng.choice([1, 2, 3]),
            "agents": "real" if real else "fake",
            "budget": rng.choice([10, 20, 30, 40, 1000]) if real else 1000}
     x = rng.random()
@@ -471,6 +474,7 @@ class Fake:
 
     def __init__(self, name, role, w):
         self.name, self.role, self.w = name, role, w
+        self.prebuilt = {}
 
     def express(self, signal):
         w = self.w
@@ -514,7 +518,16 @@ class Fake:
         payload = {"text": f"{self.role} says {v!r}", "none": None, "dict": {"note": v, "issuer": "mallory"}, "int": 42,
                    "empty": ""}[pr["payload"]]
         meta = {"issuer": "mallory", "source_agent": "mallory", "approved": True} if pr["meta"] else {}
-        return ActionProtein(v, payload, pr["conf"], source_agent=source, metadata=meta)
+        if pr["share"] == "none":
+            return ActionProtein(v, payload, pr["conf"], source_agent=source, metadata=meta)
+        # the agent answers every request that gets this verdict with one pre-built protein object ("object"), or with
+        # with_confidence() copies of it, which share its metadata dict ("derived")
+        base = self.prebuilt.get(v)
+        if base is None:
+            base = self.prebuilt[v] = ActionProtein(v, payload, pr["conf"], source_agent=source, metadata=meta)
+        else:
+            k.probe("protein_object_reused")
+        return base if pr["share"] == "object" else base.with_confidence(pr["conf"])
 
 
 class Spy:
@@ -578,7 +591,8 @@ class World:
         hooks = {} if self.cb_mode == "none" else {"on_block": self._observer("block"), "on_permit": self._observer("permit")}
         self.loop = CoherentFeedForwardLoop(
             budget=self.budget, gate_logic=GateLogic[self.logic], enable_circuit_breaker=(cfg["breaker"] != "off"),
-            failure_threshold=10 ** 9, recovery_timeout_seconds=60.0, enable_cache=cfg["cache"],
+            failure_threshold=(cfg.get("thr", 2) if cfg["breaker"] == "small" else 10 ** 9),
+            recovery_timeout_seconds=60.0, enable_cache=cfg["cache"],
             cache_ttl_seconds=cfg["ttl"], silent=quiet(), **hooks)
         seams.assert_sim_lock(self.loop)
         self.cur_req = {}
@@ -696,6 +710,10 @@ class World:
     def judge_cached(self, rec, cands, age_of):
         """A reply for which no agent was consulted.  cands: originals it may repeat; age_of(c) -> lower bound of its age in us."""
         k, snap, prompt, cfg = self.k, rec["snap"], rec["prompt"], self.cfg
+        if cfg["breaker"] == "small" and snap["action"] == "CIRCUIT_OPEN" and snap["blocked"] and snap["token"] is None:
+            # a real (small-threshold) breaker answered: blocked, no token - nothing in this property forbids that (C08's)
+            k.probe("breaker_answered")
+            return
         k.probe("cache_hit")
         tok = snap["token"]
         want = hashlib.sha256(prompt.encode()).hexdigest()[:16]
